@@ -566,6 +566,36 @@ def check_front_axes(ctx, rep, only=None):
                         rep.bad('C10.P', f"{mname.replace('torchtree.', '')}.{scope}::{txt[:60]}::stack-along-a-front-axis", where(m, c), None,
                                 f"{scope}: `{txt[:60]}` joins along an axis counted from the front (hstack: axis 1, or 0 for 1-d inputs): with one more sample dimension the pieces are "
                                 f"joined along a SAMPLE axis — the categories end up in different samples and the last axis no longer holds one entry per category")
+    # a piece of constant size (`x.new_ones(1)`, `torch.zeros(1)`) has no sample dimensions: concatenated with a value that can carry them it only fits the un-batched case
+    def _const_sized(e):
+        if isinstance(e, ast.Call) and isinstance(e.func, ast.Attribute) and e.func.attr in ('new_ones', 'new_zeros', 'new_full', 'new_empty', 'ones', 'zeros', 'full', 'empty'):
+            sizes = list(e.args) if e.func.attr.startswith('new_') else list(e.args[:1])
+            if e.func.attr in ('new_full', 'full'):
+                sizes = sizes[:1]
+            return bool(sizes) and all(isinstance(z, ast.Constant) or (isinstance(z, (ast.Tuple, ast.List)) and all(isinstance(y, ast.Constant) for y in z.elts)) for z in sizes)
+        return False
+    for mname, m in sorted(ctx.prog.modules.items()):
+        if not any(mname.startswith(p) or mname == p.rstrip('.') for p in SCOPE_PACKAGES):
+            continue
+        if only is not None and not only(mname):
+            continue
+        for fn in ast.walk(m.tree):
+            if not isinstance(fn, ast.FunctionDef) or fn.name in SKIP_METHODS:
+                continue
+            defs = local_assignments(fn)
+            cl = getattr(fn, '_parent', None)
+            scope = f"{cl.name}.{fn.name}" if isinstance(cl, ast.ClassDef) else fn.name
+            for c in ast.walk(fn):
+                if isinstance(c, ast.Call) and (dotted_name(c.func) or '') in ('torch.cat', 'torch.concat') and c.args and isinstance(c.args[0], (ast.Tuple, ast.List)):
+                    pieces = c.args[0].elts
+                    fixed = [p_ for p_ in pieces if _const_sized(p_)]
+                    batched = [p_ for p_ in pieces if not _const_sized(p_) and may_be_batched(p_, fn, defs)]
+                    if fixed and batched:
+                        n += 1
+                        txt = norm_text(c)
+                        rep.bad('C10.P', f"{mname.replace('torchtree.', '')}.{scope}::{txt[:60]}::piece-without-sample-dimensions", where(m, c), {'piece': norm_text(fixed[0])[:40]},
+                                f"{scope}: `{txt[:60]}` joins `{norm_text(fixed[0])[:30]}` — a tensor of fixed size, without sample dimensions — to `{norm_text(batched[0])[:30]}`, which "
+                                f"can carry them: the ranks differ as soon as the input is batched (torch.cat raises; with broadcasting helpers around it, samples are mixed)")
     # axis 0 of a value that may carry sample dimensions is its first SAMPLE axis unless the value is known to have none: `x.unsqueeze(0)` under a test of the rank of x is
     # the un-batched branch; under a test of the rank of ANOTHER value it is applied to x whatever its own sample shape ([S,1] -> [1,S,1]: the samples of x slide onto the
     # next axis of whatever it is combined with)
